@@ -201,7 +201,7 @@ func TestC30(t *testing.T) {
 				if _, exited := tool.wait(0); exited {
 					break
 				}
-				if udpPortBound(port) {
+				if tool.ownsUDPPort(port) {
 					up = true
 					break
 				}
